@@ -78,7 +78,25 @@ PROPS.update({
     'C18': bounded('C18', 'arch', 'Architecture builder call sequences vs a shadow shape model, distillation of accepted architectures and of their splits, npz layer-file round trips.'),
 })
 PROPS['C12']['bounded'] = [{'args': ['tree-ops'], 'classes': None}]
-PROPS['C12']['replay_search'] = ['tree-ops']
+
+PROPS['C13'].update({
+    'level': 'other',
+    'units': ['tree_iter'],
+    'technique': 'Verus contracts on the extracted text of src/tree/iter.rs (step relations of DfsPre/DfsEdge/Bfs against a spec pre-order, skip_subtree, size-bound preservation) + bounded replay (bc traversal) for what the contracts do not reach',
+    'level_text': ('Mixed. PROVED (Verus, all trees, all K, all start nodes, all positions): DfsPre::next / DfsEdge::next return the head of the remaining '
+                   'pre-order `rem(stack)` of a spec traversal (children by ascending label, depth and remaining-sibling counters) and leave the tail to come; '
+                   'skip_subtree drops exactly the entries pushed by the last next() (lemma: next then skip removes exactly pre_items(last) minus the item itself; a second '
+                   'skip is a no-op); size_hint bounds are preserved by next and skip_subtree; Bfs::next / skip_subtree obey the queue discipline with correct '
+                   'depth / remaining-sibling counters; DfsEdge::new seeds from the given root. BOUNDED only (bc traversal, exhaustive small trees): the initial size bounds '
+                   'of new(), PolyhedraIter::size_hint, index-order iterators, num_nodes, num_terminals, depth, depth_stats, path_to_node.'),
+    'design_ref': 'DESIGN.md §4 C13',
+    'assumptions': ASSUME_COMMON + ASSUME_SLAB + ASSUME_BC + [
+        'rule T1: methods of `impl TraversalMut for X` are verified as inherent methods (trait dispatch in TraversalIter is a one-line delegation, not modelled)',
+        'assume_specification for VecDeque::from([T; N]) (view equals the array); vstd specifications of Vec / VecDeque',
+        'the remaining-sequence theorems are stated for every height map h with ranked_down(arena, h) (exists for every wf tree, part of wf)',
+        'depth counters do not overflow: depth + height < usize::MAX (invariant dfs_inv)',
+    ],
+})
 
 NOT_APPLICABLE = {
     'C10': 'correctness of the external LP solver (minilp simplex) seen through a 20-line adapter: no contract within reach can decide it; a contract on solve_linprog would have to be assumed',
